@@ -43,7 +43,15 @@ def cmp_tiny_input(case, what):
     n, eps = len(t[1].split()), int(h[4])
     return n < eps
 
-CLASSIFIERS = {"cmp_tiny_input_runtime_error": cmp_tiny_input}
+def cmp_chunked_clamp(case, what):
+    """CompressedPGMIndex built in chunks (n >= 2^15, >= 2 threads): the short segments at chunk ends have intercepts
+    closer than 1 and the strictly-increasing clamp of CompressedLevel moves them by more than the slack"""
+    t = case.split("|")
+    h = t[0].split()
+    if h[0] != "CMP" or len(h) < 8: return False
+    return int(h[7]) >= 2 and len(t[1].split()) >= (1 << 15) and ("present" in what or "lower_bound" in what)
+
+CLASSIFIERS = {"cmp_tiny_input_runtime_error": cmp_tiny_input, "cmp_chunked_clamp": cmp_chunked_clamp}
 
 # ---------------------------------------------------------------- property table
 def P(**kw): return kw
